@@ -259,3 +259,49 @@ func init() {
 		fmt.Println("REPLAY: not-reproduced")
 	}
 }
+
+// captureLogger records the events handed to Append (a Logger for replay purposes).
+type captureLogger struct {
+	LoggerBase
+	events []Event
+	raws   [][]byte
+}
+
+func (c *captureLogger) Start() error    { return nil }
+func (c *captureLogger) Stop()           {}
+func (c *captureLogger) GetName() string { return "capture" }
+func (c *captureLogger) Append(e *Event) { c.events = append(c.events, *e) }
+func (c *captureLogger) Write(b []byte)  { c.raws = append(c.raws, append([]byte(nil), b...)) }
+
+func replayCallerLine() (string, int) {
+	_, file, line, _ := runtimeCaller(1)
+	return file, line
+}
+
+func init() {
+	replayers["record"] = func(in map[string]any) {
+		saveE, saveF := enableCaller, fastCaller
+		defer func() { enableCaller, fastCaller = saveE, saveF }()
+		for _, fast := range []bool{false, true} {
+			enableCaller, fastCaller = true, fast
+			cl := &captureLogger{LoggerBase: LoggerBase{Level: LevelRange{MinLevel: NoneLevel, MaxLevel: MaxLevel}}}
+			tag := &Tag{tag: "_replay_tag", logger: cl}
+			wantFile, wantLine := replayCallerLine()
+			Info(t0ctx(), tag, Msg("x")) // must stay on the line after replayCallerLine
+			wantLine++
+			if len(cl.events) != 1 {
+				fmt.Printf("REPLAY: confirmed fastCaller=%v: Info delivered %d events, want 1\n", fast, len(cl.events))
+				return
+			}
+			if e := cl.events[0]; e.File != wantFile || e.Line != wantLine {
+				fmt.Printf("REPLAY: confirmed fastCaller=%v: event reports %s:%d, the log call is at %s:%d\n", fast, e.File, e.Line, wantFile, wantLine)
+				return
+			}
+			if e := cl.events[0]; e.Level != InfoLevel || e.Tag != "_replay_tag" {
+				fmt.Printf("REPLAY: confirmed fastCaller=%v: event level/tag %v %q\n", fast, e.Level, e.Tag)
+				return
+			}
+		}
+		fmt.Println("REPLAY: not-reproduced")
+	}
+}
